@@ -24,6 +24,63 @@ var (
 	rawJSONType  = reflect.TypeOf(json.RawMessage(nil))
 )
 
+var anyType = reflect.TypeOf((*interface{})(nil)).Elem()
+
+// What encoding/json itself puts into an interface{}: float64, bool, nil,
+// string, []interface{}, map[string]interface{} (never typed nils, never Go
+// integers - those are outside a JSON round trip by the language's own rules).
+var anyNumbers = []float64{0, 1, -1, 3, 42, -7, 0.5, -2.25, 1e21, 1e20, 1e-7, 123456789012, 9007199254740993, -9007199254740992, 1 << 53,
+	18446744073709551615, 1.7976931348623157e308, 5e-324, 3.141592653589793, 1e6, 1e100, -1e-100, 2147483648, 65535}
+
+var numberLikeStrings = []string{"1", "-5", "0", "1e5", "3.14", "007", "+1", "NaN", "null", "true", "1e400", "0x10", " 12 ", "12345678901234567890"}
+
+func genAny(r *rand.Rand, depth int) interface{} {
+	k := r.Intn(9)
+	if depth <= 0 && k >= 7 {
+		k = r.Intn(7)
+	}
+	switch k {
+	case 0:
+		return nil
+	case 1:
+		return r.Intn(2) == 0
+	case 2:
+		return anyNumbers[r.Intn(len(anyNumbers))]
+	case 3:
+		return float64(genInt(r, 32)) // integral values
+	case 4:
+		return genFloat64(r)
+	case 5:
+		return numberLikeStrings[r.Intn(len(numberLikeStrings))]
+	case 6:
+		return genString(r)
+	case 7:
+		return genAnyList(r, depth-1)
+	default:
+		return genAnyMap(r, depth-1)
+	}
+}
+
+func genAnyList(r *rand.Rand, depth int) []interface{} {
+	l := make([]interface{}, r.Intn(4))
+	for i := range l {
+		l[i] = genAny(r, depth)
+	}
+	return l
+}
+
+func genAnyMap(r *rand.Rand, depth int) map[string]interface{} {
+	m := map[string]interface{}{}
+	for n := r.Intn(4); n > 0; n-- {
+		key := genString(r)
+		if r.Intn(2) == 0 {
+			key = numberLikeStrings[r.Intn(len(numberLikeStrings))]
+		}
+		m[key] = genAny(r, depth)
+	}
+	return m
+}
+
 var istZone = time.FixedZone("IST", 5*3600+1800)
 var pstZone = time.FixedZone("PST", -8*3600)
 
@@ -397,6 +454,31 @@ func genBase(r *rand.Rand, t reflect.Type, wholeSecond bool) (reflect.Value, boo
 			v.Set(reflect.ValueOf(genStringList(r)))
 		}
 		return v, true
+	case reflect.TypeOf(map[string]interface{}(nil)):
+		if r.Intn(5) != 0 {
+			v.Set(reflect.ValueOf(genAnyMap(r, 2)))
+		}
+		return v, true
+	case reflect.TypeOf([]interface{}(nil)):
+		if r.Intn(5) != 0 {
+			v.Set(reflect.ValueOf(genAnyList(r, 2)))
+		}
+		return v, true
+	case reflect.TypeOf(anyDoc{}):
+		d := anyDoc{V: genAny(r, 2), N: genInt(r, 64), F: genFloat64(r)}
+		if r.Intn(3) != 0 {
+			d.M = genAnyMap(r, 1)
+		}
+		if r.Intn(3) != 0 {
+			d.L = genAnyList(r, 1)
+		}
+		v.Set(reflect.ValueOf(d))
+		return v, true
+	case anyType:
+		if a := genAny(r, 2); a != nil {
+			v.Set(reflect.ValueOf(a))
+		}
+		return v, true
 	}
 	switch t.Kind() {
 	case reflect.Bool:
@@ -465,7 +547,7 @@ func isSelfNull(v reflect.Value) bool {
 		return !x.Valid
 	}
 	switch v.Kind() {
-	case reflect.Slice, reflect.Map:
+	case reflect.Slice, reflect.Map, reflect.Interface:
 		return v.IsNil()
 	}
 	return false
